@@ -30,16 +30,38 @@ End Eqb.
 Definition pair_eqb {A B} (ea : A -> A -> bool) (eb : B -> B -> bool) (a b : A * B) : bool :=
   ea (fst a) (fst b) && eb (snd a) (snd b).
 
-(** stable insertion sort by a Z key *)
+(** stable merge sort by a Z key (bottom-up, O(n log n): the whole-job checks sort tens of
+    thousands of results) *)
 Section Sort.
   Context {A : Type} (key : A -> Z).
-  Fixpoint insert_by (x : A) (l : list A) : list A :=
-    match l with
-    | [] => [x]
-    | y :: l' => if Z.ltb (key x) (key y) then x :: l else y :: insert_by x l'
+  (* on equal keys the element of the LEFT list goes first *)
+  Fixpoint merge_by (l1 : list A) : list A -> list A :=
+    fix aux (l2 : list A) : list A :=
+      match l1, l2 with
+      | [], _ => l2
+      | _, [] => l1
+      | a :: l1', b :: l2' => if Z.ltb (key b) (key a) then b :: aux l2' else a :: merge_by l1' l2
+      end.
+  (* stack of runs, newest first; the run at depth i has 2^i elements; older runs hold
+     earlier elements and are always the left argument of a merge *)
+  Fixpoint push_run (stack : list (option (list A))) (l : list A) : list (option (list A)) :=
+    match stack with
+    | [] => [Some l]
+    | None :: stack' => Some l :: stack'
+    | Some l' :: stack' => None :: push_run stack' (merge_by l' l)
     end.
-  (* foldr keeps equal keys in their original relative order *)
-  Definition sort_by (l : list A) : list A := fold_right insert_by [] l.
+  Fixpoint merge_runs (stack : list (option (list A))) (acc : list A) : list A :=
+    match stack with
+    | [] => acc
+    | None :: stack' => merge_runs stack' acc
+    | Some l :: stack' => merge_runs stack' (merge_by l acc)
+    end.
+  Fixpoint sort_iter (stack : list (option (list A))) (l : list A) : list A :=
+    match l with
+    | [] => merge_runs stack []
+    | a :: l' => sort_iter (push_run stack [a]) l'
+    end.
+  Definition sort_by (l : list A) : list A := sort_iter [] l.
 End Sort.
 
 (** lexicographic order on lists of Z, for sorting values that are lists *)
